@@ -226,6 +226,14 @@ func Finish(c *Ctx, r *Report) int {
 		violLines = append(violLines, fmt.Sprintf("VIOLATION property=%s replay=%s", c.Prop, path))
 		fmt.Fprintf(os.Stderr, "  %s\n    %s\n", f.Key, strings.ReplaceAll(f.Msg, "\n", "\n    "))
 	}
+	if dump := os.Getenv("VERIF_DUMP_KEYS"); dump != "" {
+		var all []string
+		for _, f := range r.Findings {
+			all = append(all, f.Key)
+		}
+		b, _ := json.MarshalIndent(all, "", " ")
+		os.WriteFile(dump, b, 0o644)
+	}
 	var knownKeys []string
 	for _, e := range order {
 		fmt.Printf("KNOWN-FINDING: property=%s %s (%d matching case(s))\n", c.Prop, e.What, len(matched[e]))
